@@ -53,8 +53,8 @@ func init() {
 					}
 				}
 				if len(as.Lhs) == 1 {
-					if call, ok := isCallToNamed(info, as.Rhs[0], "slices", "ContainsFunc"); ok && len(call.Args) == 2 {
-						if sel, ok := ast.Unparen(call.Args[0]).(*ast.SelectorExpr); ok && prog.SelField(info, sel) == parents && prog.IdentObj(info, sel.X) == split {
+					if call, ok := isCallToNamed(info, deref(info, as.Rhs[0]), "slices", "ContainsFunc"); ok && len(call.Args) == 2 {
+						if sel, ok := ast.Unparen(call.Args[0]).(*ast.SelectorExpr); ok && prog.SelField(info, sel) == parents && derefObj(info, sel.X) == split {
 							if lit, ok := ast.Unparen(call.Args[1]).(*ast.FuncLit); ok && exprUsesField(info, lit.Body, known) {
 								parentVar = prog.IdentObj(info, as.Lhs[0])
 							}
@@ -228,27 +228,30 @@ func init() {
 						r.Site(kv.Pos(), "Checkpoint: AssignedShards <- AssignedSplits() converted index by index")
 						dst := prog.IdentObj(info, kv.Value)
 						okFill := false
-						inspect(ck.Decl.Body, func(m ast.Node) bool {
-							rs, ok := m.(*ast.RangeStmt)
-							if !ok || !onTracker(info, resolveLocal(info, ck.Decl.Body, rs.X), assignedSplits) {
-								return true
+						for _, lp := range fullLoopsOver(info, ck.Decl.Body, func(e ast.Expr) bool { return onTracker(info, e, assignedSplits) }) {
+							var iv types.Object
+							switch x := lp.Stmt.(type) {
+							case *ast.RangeStmt:
+								iv = prog.IdentObj(info, x.Key)
+							case *ast.ForStmt:
+								if as, ok := x.Init.(*ast.AssignStmt); ok && len(as.Lhs) == 1 {
+									iv = prog.IdentObj(info, as.Lhs[0])
+								}
 							}
-							i, v := prog.IdentObj(info, rs.Key), prog.IdentObj(info, rs.Value)
-							for _, st := range rs.Body.List {
+							for _, st := range lp.Body.List {
 								as, ok := st.(*ast.AssignStmt)
 								if !ok || len(as.Lhs) != 1 || len(as.Rhs) != 1 {
 									continue
 								}
 								ix, ok := ast.Unparen(as.Lhs[0]).(*ast.IndexExpr)
 								call, ok2 := ast.Unparen(as.Rhs[0]).(*ast.CallExpr)
-								if ok && ok2 && dst != nil && prog.IdentObj(info, ix.X) == dst && i != nil && prog.IdentObj(info, ix.Index) == i && r.P.CalleeFunc(info, call) == toProto {
-									if sel, ok := ast.Unparen(call.Fun).(*ast.SelectorExpr); ok && v != nil && prog.IdentObj(info, sel.X) == v {
+								if ok && ok2 && dst != nil && prog.IdentObj(info, ix.X) == dst && iv != nil && prog.IdentObj(info, ix.Index) == iv && r.P.CalleeFunc(info, call) == toProto {
+									if sel, ok := ast.Unparen(call.Fun).(*ast.SelectorExpr); ok && lp.IsElem(sel.X) {
 										okFill = true
 									}
 								}
 							}
-							return true
-						})
+						}
 						if !okFill {
 							r.Fail(ck.Name()+":assigned-shards", kv.Pos(), nil, "the checkpointed shard list is not splitTracker.AssignedSplits() converted element by element")
 						}
@@ -312,7 +315,7 @@ func init() {
 					}
 					nDisc++
 					r.Site(call.Pos(), "discoverShards(ctx, splitTracker.LastAssigned())")
-					if !onTracker(u.Pkg.TypesInfo, call.Args[1], lastAssigned) {
+					if !onTracker(u.Pkg.TypesInfo, deref(u.Pkg.TypesInfo, call.Args[1]), lastAssigned) {
 						r.Fail(u.Scope.Name(r.P)+":discover-from", call.Pos(), nil, "shard discovery does not resume after splitTracker.LastAssigned()")
 					}
 					break
